@@ -1,5 +1,6 @@
 import Cello.Seq
 import Cello.SeqStore
+import Cello.SeqSrc
 import Cello.Sort
 import Driver.Common
 /- driver for engine `seq` (C04): interprets the op files of harness/h_seq.c on the model and prints the same `O` lines (see
@@ -388,6 +389,13 @@ def stepInts (st : St) (k : Nat) (c : Cont) (cmd : String) (args : List String) 
       let sh := resOf (fun (b : Bool) => if b then "b=1" else "b=0")
       (st, out st cmd (sh rs) (some c) ++ obsCheck (sh rs == sh (.ok b)))
     | none => (st, "O bad-op")
+  | "layout", [] => match c with
+    | .arr ek s _ =>
+      -- element sizes of the harness' element types (Int, String, Rec12, Rec5); header and pointer size of the default 64-bit build
+      let raw := [8, 8, 12, 5].getD ek 8
+      let L := Cello.Seq.Src.arrLayout raw 24 8 s.nitems s.nslots
+      (st, out st cmd s!"raw={raw} hdr=24 ptr=8 tsize={L.tsize} step={L.step} item={L.item} rec={L.recFrom}+{L.recLen} head={L.head} bytes={L.bytes}" (some c))
+    | _ => (st, "O bad-op")
   | "len", [] =>
     let (n, n') := match c with
       | .arr _ s a => (s.nitems, a.nitems) | .lst _ s l => (s.nitems, l.nitems) | .tup _ _ => (0, 0)
